@@ -125,6 +125,7 @@ const char *shim_static_errtext (int errcode)
 {
     static eav_t scratch;
     if (errcode < 0 || errcode >= EEAV_MAX || errcode == EEAV_IDN_ERROR) return NULL;
+    eav_init (&scratch);            /* a properly initialised object: entry points may validate it */
     scratch.errcode = errcode;
     return eav_errstr (&scratch);
 }
